@@ -126,6 +126,13 @@ def rewrite_body(s):
                 lambda m: _flat(m), s2)
     s = s2
 
+    # R14 (feature rkyv): `rkyv::Archived<T>` is `T` for the primitive field types of ArchivedDecimal on a
+    # little-endian target without rkyv's archive_le/archive_be features (assumption, listed); the
+    # derive-generated where-clause of the archived struct is dropped with it
+    s, k = re.subn(r'(?<![A-Za-z0-9_])(?:::)?rkyv::Archived<\s*([A-Za-z0-9_]+)\s*>', r'\1', s)
+    _count('R14.rkyv_archived', k)
+    s, k = re.subn(r'where\s+i128:\s*(?:::)?rkyv::Archive,\s*u8:\s*(?:::)?rkyv::Archive\s*,?', '', s)
+    _count('R14.rkyv_where', k)
     # R3: panics
     def rp(m, args):
         _count('R3.panic')
